@@ -178,7 +178,9 @@ def parse_impl(lines):
                 stuck.append(l.strip())
         else:
             stuck.append(l)
-    if outcome == "?":
+    if exitc is not None and exitc.startswith("harness-died"):
+        outcome = "nodata"          # the batch process died or timed out: no observation about this case
+    elif outcome == "?":
         outcome = "crash" if exitc not in ("0",) else "end"
     return {"steps": steps, "exit": exitc, "outcome": outcome, "stuck": stuck, "tids": tids, "stray": pre}
 
@@ -273,14 +275,16 @@ def oracle(case, pi):
     nrun = 0
     enable = bool(case["e0"])
     facts = {"deliveries": 0, "gated_deliveries": 0, "shutdown_exits": 0, "runs": 0, "restarts_with_delivery": 0,
-             "runs_with_delivery": 0, "pending_at_stop": 0, "triggers": 0, "gaps": 0}
+             "runs_with_delivery": 0, "pending_at_stop": 0, "triggers": 0, "gaps": 0, "straddling_deliveries": 0}
     marks = []          # (step index, ndeliv, trig, gated) at each delivery, for the ghost cross-check
     in_get = False
+    get_run = 0         # number of starts that had returned when the current get_frame was entered
     for k, (tid, kind, label, sp, evs) in enumerate(pi["steps"]):
-        if tid >= 3 and run is not None and tid == run["tid"]:
-            run["sstep"] += 1
+        if tid >= 3 and run is not None:
+            run["sstep"] += 1          # steps of ANY thread other than main / controller / caller since this start
         if tid == 2 and kind == "dev" and label == "op:G":
             in_get = True
+            get_run = nrun
         for ev in evs:
             w = ev.split()
             if tid == 1:
@@ -297,7 +301,11 @@ def oracle(case, pi):
                 elif w[0] == "R" and w[1] == "S" and len(w) > 2 and w[2] == "rc=0":
                     nrun += 1
                     facts["runs"] += 1
-                    run = {"ids": [], "trig": 0, "gated": enable, "sstep": 0, "tid": 2 + nrun, "stopping": False, "closed": False}
+                    run = {"ids": [], "trig": 0, "trig_begun": 0, "nall": 0, "gated": enable, "sstep": 0, "stopping": False, "closed": False}
+                elif w[0] == "B" and w[1] == "T" and run is not None and not run["closed"]:
+                    # counted when the trigger is INVOKED: a frame cannot be owed to a trigger nobody has called yet,
+                    # whatever the implementation does between taking the trigger and returning from it
+                    run["trig_begun"] += 1
                 elif w[0] == "R" and w[1] == "T" and run is not None and not run["closed"]:
                     run["trig"] += 1
                     facts["triggers"] += 1
@@ -315,6 +323,13 @@ def oracle(case, pi):
                 if run is None:
                     v.append(("C18-delivery-without-start", "a frame (id %d) was delivered although the camera was never started" % fid, k))
                     continue
+                run["nall"] += 1
+                if get_run != nrun:
+                    # the call was entered before this run's start returned: which run the frame belongs to is not
+                    # determined by the interface, so nothing is concluded from it (nor from the rest of this run's ids
+                    # relative to it)
+                    facts["straddling_deliveries"] += 1
+                    continue
                 ids = run["ids"]
                 if not ids:
                     facts["runs_with_delivery"] += 1
@@ -329,21 +344,22 @@ def oracle(case, pi):
                 ids.append(fid)
                 # the id counts the frames generated in THIS run: the streamer thread of this run needs at least one step
                 # of its own per generated frame, and in a gated run one external trigger per generated frame
-                if fid >= run["sstep"]:
+                if fid > run["sstep"]:
                     v.append(("C18-ids-do-not-restart",
-                              "run %d: delivered hardware_frame_id %d but this run's streamer thread has taken only %d steps "
-                              "(the count must restart with each start)" % (nrun, fid, run["sstep"]), k))
+                              "run %d: delivered hardware_frame_id %d but the camera's threads have taken only %d steps since "
+                              "this start (the id counts the frames generated in THIS run: it must restart with each start)"
+                              % (nrun, fid, run["sstep"]), k))
                 if run["gated"]:
                     facts["gated_deliveries"] += 1
-                    if len(ids) > run["trig"]:
+                    if len(ids) > run["trig_begun"]:
                         v.append(("C18-gated-delivery-without-trigger",
                                   "run %d (frame trigger enabled since before its start): delivery number %d (hardware_frame_id %d) "
-                                  "after only %d external trigger(s) in this run" % (nrun, len(ids), fid, run["trig"]), k))
-                    elif fid >= run["trig"]:
+                                  "after only %d external trigger(s) in this run" % (nrun, len(ids), fid, run["trig_begun"]), k))
+                    elif fid > run["trig_begun"]:
                         v.append(("C18-gated-id-exceeds-triggers",
-                                  "run %d (gated): hardware_frame_id %d but only %d external triggers so far in this run"
-                                  % (nrun, fid, run["trig"]), k))
-                marks.append((k, len(ids), run["trig"], run["gated"]))
+                                  "run %d (gated): hardware_frame_id %d although only %d external triggers were executed in this run "
+                                  "(the id counts the frames generated in this run, one per trigger)" % (nrun, fid, run["trig_begun"]), k))
+                marks.append((k, run["nall"], run["trig"], run["gated"]))
     if pi["outcome"] == "deadlock":
         v.append(("C18-deadlock", "DEADLOCK: no thread is enabled although some have not finished (stop did not return or a pending "
                   "get_frame was never released): " + " | ".join(pi["stuck"][:8]), len(pi["steps"])))
@@ -426,7 +442,8 @@ def fold(ctx, orac, impl, case, pi, pm, origin):
     nontriv = facts["deliveries"] > 0 and (facts["runs"] > 1 or facts["triggers"] > 0 or facts["shutdown_exits"] > 0)
     ctx.case(case_line(case) + " " + ",".join(map(str, pi["tids"])), nontrivial=nontriv)
     ctx.count("origin:" + origin)
-    for k in ("deliveries", "gated_deliveries", "shutdown_exits", "runs", "restarts_with_delivery", "pending_at_stop", "triggers", "gaps"):
+    for k in ("deliveries", "gated_deliveries", "shutdown_exits", "runs", "restarts_with_delivery", "pending_at_stop", "triggers", "gaps",
+              "straddling_deliveries"):
         if facts[k]:
             ctx.count("obs:" + k, facts[k])
     ctx.count("steps", len(pi["steps"]))
@@ -446,6 +463,10 @@ def fold(ctx, orac, impl, case, pi, pm, origin):
             ctx.violation(smsg, replay_obj(ctx, small, spi, smsg), key=key)
         else:
             ctx.violation(msg, None, key=key)
+    if pi["outcome"] == "nodata":
+        ctx.broken_tie("the harness process produced no output for a case (died or timed out as a whole): nothing observed",
+                       {"case": case_line(case), "exit": pi["exit"]})
+        return
     if pi["outcome"] == "diverged":
         ctx.broken_tie("an explicit thread-id schedule could not be followed by the implementation (replay diverged)",
                        {"case": case_line(case), "stuck": pi["stuck"][:6]})
@@ -478,19 +499,23 @@ def load_corpus(ctx):
                 line = line.strip()
                 if not line or line.startswith("#"):
                     continue
-                c = {"spur": 0, "seed": 1, "e0": 0}
-                for tok in line.split():
-                    k, _, val = tok.partition("=")
-                    if k in ("ctl", "cal"):
-                        c[k] = val
-                    elif k in ("e0", "seed", "spur", "mode", "maxsteps"):
-                        c[k] = int(val)
-                    elif k == "sched":
-                        c["sched"] = [int(x) for x in val.split(",") if x != ""]
-                c["ctl"] = normalise(c.get("ctl", ""))
-                c.setdefault("cal", "")
-                cases.append(c)
+                cases.append(parse_case_line(line))
     return cases
+
+
+def parse_case_line(line):
+    c = {"spur": 0, "seed": 1, "e0": 0}
+    for tok in line.split():
+        k, _, val = tok.partition("=")
+        if k in ("ctl", "cal"):
+            c[k] = val
+        elif k in ("e0", "seed", "spur", "mode", "maxsteps"):
+            c[k] = int(val)
+        elif k == "sched":
+            c["sched"] = [int(x) for x in val.split(",") if x != ""]
+    c["ctl"] = normalise(c.get("ctl", ""))
+    c.setdefault("cal", "")
+    return c
 
 
 # ----------------------------------------------------------------------------- exhaustive small scope
@@ -534,7 +559,8 @@ def run(ctx):
                 "non-trivial = at least one frame delivered and (more than one run, or a trigger, or a shutdown exit); "
                 "distinct = distinct (scripts, schedule)" % (9 if thorough else 5))
     ctx.assumptions = [
-        "fairness of the OS scheduler (every 'returns' claim); no spurious wake-ups for the bounded-progress theorem",
+        "fairness of the OS scheduler (every 'returns' claim): C18_stop_unblocks bounds the designated threads' steps by mu + the number "
+        "of spurious wake-ups and shows a thread is always enabled; that enabled threads get scheduled is assumed",
         "sequential consistency at block granularity: the data races on is_running / frame_wanted are interleaved only at vplatform's scheduling points",
         "pthread mutex/condvar semantics are those of vplatform (modelled, not exercised); exposure timing is virtual",
         "one controller thread (start/stop/trigger/set are sequential) and one caller thread; get_frame is not ENTERED while another thread is "
@@ -542,6 +568,14 @@ def run(ctx):
         "frame ids are unbounded integers (no 64-bit wrap)"]
     ctx.notes.append("label mismatches are reported as a broken tie, never as a violation; only the independent oracle over the implementation's "
                      "own trace produces violations")
+
+    if getattr(ctx, "replay_file", None):
+        # --replay <replays/C18-n.json>: re-run exactly that failure (thread-id schedule) before anything else
+        try:
+            robj = json.load(open(ctx.replay_file))
+            process(ctx, orac, impl, [parse_case_line(robj["replay"]["stdin_line"])], "replay-file")
+        except (OSError, KeyError, TypeError, ValueError) as ex:
+            ctx.notes.append("replay file not understood: %s" % ex)
 
     corpus = load_corpus(ctx)
     if corpus:
@@ -561,3 +595,12 @@ def run(ctx):
     ex = exhaustive_cases(EXH_SCRIPTS, 9 if thorough else 5, 3)
     ctx.extra["exhaustive_prefix_cases"] = len(ex)
     process(ctx, orac, impl, ex, "exhaustive-prefix")
+
+    # ---- thorough: independent re-check of the compiled proofs with coqchk
+    if thorough and os.path.exists(os.path.join(ctx.coqdir, "Properties_%s.vo" % ctx.prop)):
+        rc, o, e = vlib.sh("timeout 900 coqchk -o -silent -Q . SimSync SimSync.Properties_%s" % ctx.prop, cwd=ctx.coqdir, timeout=950)
+        txt = o + e
+        ok = rc == 0 and "Axioms: <none>" in txt and "type-in-type: <none>" in txt
+        ctx.extra["coqchk"] = "ok: axioms <none>, no type-in-type, no unsafe fixpoints" if ok else txt[-800:]
+        if not ok:
+            ctx.broken_tie("coqchk does not accept SimSync.Properties_%s" % ctx.prop, txt[-800:])
